@@ -107,6 +107,7 @@ def run(chk, replay=None):
         chk.case(('genprefix', k)); chk.count('generated_form_prefix_cases')
         C.table_oracle(chk, out['table_after'], {'synthetic': [[u'ns%d' % k, u'urn:foreign:gen%d' % k]], 'touch': 5})
     C.alive_across_load_check(chk)
+    C.fresh_process_documents_check(chk)
     # history independence: same trees, fresh interpreter vs after a history
     samples = sorted(glob.glob(os.path.join(common.REPO, 'tests', 'examples', '*.od*')))
     import translate_ns
